@@ -359,7 +359,9 @@ static void do_phpe(void) {
 	VH_TRY(ee[2], ra = cp_phpe_add(C3, C1, C2, hpub));
 	VH_TRY(ee[3], rd[0] = cp_phpe_dec(D1, C1, hprv));
 	VH_TRY(ee[4], rd[1] = cp_phpe_dec(D2, C2, hprv));
-	VH_TRY(ee[5], rd[2] = cp_phpe_dec(D3, C3, hprv));
+	/* the third decryption runs IN PLACE (output object = ciphertext object), the alias pattern of an accumulator */
+	bn_copy(D3, C3);
+	VH_TRY(ee[5], rd[2] = cp_phpe_dec(D3, D3, hprv));
 	vh_begin("phpe");
 	vh_bn("N", hprv->n); vh_bn("P", hprv->p); vh_bn("Q", hprv->q);
 	vh_bn("m1", M1); vh_bn("m2", M2); vh_bn("c1", C1); vh_bn("c2", C2); vh_bn("c3", C3);
@@ -395,7 +397,8 @@ static void do_ghpe(void) {
 	bn_mul(C3, C1, C2); bn_mod(C3, C3, T1);                 /* combination: input construction */
 	VH_TRY(ee[2], rd[0] = cp_ghpe_dec(D1, C1, gpub, gprv, s));
 	VH_TRY(ee[3], rd[1] = cp_ghpe_dec(D2, C2, gpub, gprv, s));
-	VH_TRY(ee[4], rd[2] = cp_ghpe_dec(D3, C3, gpub, gprv, s));
+	bn_copy(D3, C3);                       /* in place, as for the other homomorphic schemes */
+	VH_TRY(ee[4], rd[2] = cp_ghpe_dec(D3, D3, gpub, gprv, s));
 	vh_begin("ghpe");
 	vh_int("s", s); vh_bn("N", gpub); vh_bn("L", gprv);
 	vh_bn("m1", M1); vh_bn("m2", M2); vh_bn("c1", C1); vh_bn("c2", C2); vh_bn("c3", C3);
@@ -430,7 +433,8 @@ static void do_shpe(void) {
 	bn_mul(C3, C1, C2); bn_mod(C3, C3, T1);
 	VH_TRY(ee[2], rd[0] = cp_shpe_dec(D1, C1, sprv));
 	VH_TRY(ee[3], rd[1] = cp_shpe_dec(D2, C2, sprv));
-	VH_TRY(ee[4], rd[2] = cp_shpe_dec(D3, C3, sprv));
+	bn_copy(D3, C3);                       /* in place, as above */
+	VH_TRY(ee[4], rd[2] = cp_shpe_dec(D3, D3, sprv));
 	vh_begin("shpe");
 	vh_bn("N", sprv->crt->n); vh_bn("P", sprv->crt->p); vh_bn("Q", sprv->crt->q); vh_bn("A", sprv->a); vh_bn("G", sprv->g);
 	vh_bn("m1", M1); vh_bn("m2", M2); vh_bn("c1", C1); vh_bn("c2", C2); vh_bn("c3", C3);
